@@ -1502,7 +1502,18 @@ class TeX(object):
                 return dimen(sign * dimen(t))
             self.pushToken(t)
             break
-        num = dimen(sign * self.readDecimal() * self.readUnitOfMeasure(units=units))
+        value = sign * self.readDecimal()
+        unit = self.readUnitOfMeasure(units=units)
+        if unit >= 2e9:
+            # fil, fill and filll are encoded by an offset (see dimen),
+            # which must not be scaled by the amount
+            offset = unit - 1
+            if value < 0:
+                num = dimen(value - offset)
+            else:
+                num = dimen(value + offset)
+        else:
+            num = dimen(value * unit)
         ParameterCommand.enable()
         return num
 
